@@ -14,6 +14,7 @@ type legacyVisitor struct {
 	gen.BaseExcellent1Visitor
 	env     envs.Environment
 	options *MigrateOptions
+	err     error // first error migrating a function call
 }
 
 func newLegacyVisitor(env envs.Environment, options *MigrateOptions) *legacyVisitor {
@@ -98,7 +99,14 @@ func (v *legacyVisitor) VisitFunctionCall(ctx *gen.FunctionCallContext) any {
 		params = v.Visit(ctx.Parameters()).([]string)
 	}
 
-	rewrittenFuncCall, _ := migrateFunctionCall(functionName, params)
+	rewrittenFuncCall, err := migrateFunctionCall(functionName, params)
+	if err != nil {
+		// remember that this expression can't be migrated and carry on with the call as it is
+		if v.err == nil {
+			v.err = err
+		}
+		rewrittenFuncCall, _ = renderCall(functionName, params)
+	}
 	return rewrittenFuncCall
 }
 
